@@ -17,23 +17,32 @@ EXTENDS Integers, Sequences, FiniteSets, TLC
 CONSTANTS MaxCalls,
           HeomResets,     \* TRUE: propagate starts from an empty hierarchy (the
                           \*   code, after the repair); FALSE: negative control
-          NrefPersists    \* FALSE: a refinement passed to propagate applies to
+          NrefPersists,   \* FALSE: a refinement passed to propagate applies to
                           \*   that call only (the code, after the repair);
                           \*   TRUE: it stays switched on (negative control)
+          NefRecomputes   \* TRUE: the initial-condition term of the
+                          \*   non-equilibrium Foerster tensor is recomputed
+                          \*   from the submitted state by every propagation
+                          \*   (the code); FALSE: it is kept when the state
+                          \*   OBJECT is the one seen last (negative control:
+                          \*   the object may have been changed in place)
 
 VARIABLES userNref,    \* refinement the user set with setDtRefinement (input)
           effNref,     \* refinement the propagator will actually use
           ado,         \* "empty" | "used"   hierarchy.ado
           hamProt,     \* Hamiltonian.is_basis_protected
           hamCut,      \* couplings currently subtracted (JR held aside)
+          nefIc,       \* initial condition the stored inhomogeneous term of
+                       \* the neF tensor was computed for (0 = none | 1 | 2)
           ncalls,
           lastDet,     \* was the last call's result determined by its inputs?
           lastCall
 
-vars == <<userNref, effNref, ado, hamProt, hamCut, ncalls, lastDet, lastCall>>
+vars == <<userNref, effNref, ado, hamProt, hamCut, nefIc, ncalls, lastDet,
+          lastCall>>
 
 Init == /\ userNref = 1 /\ effNref = 1 /\ ado = "empty"
-        /\ hamProt = FALSE /\ hamCut = FALSE
+        /\ hamProt = FALSE /\ hamCut = FALSE /\ nefIc = 0
         /\ ncalls = 0 /\ lastDet = TRUE /\ lastCall = "none"
 
 Tick == ncalls' = ncalls + 1
@@ -41,7 +50,7 @@ Tick == ncalls' = ncalls + 1
 \* prop.setDtRefinement(n): an explicit, documented input
 SetRefinement(n) ==
   /\ userNref' = n /\ effNref' = n
-  /\ UNCHANGED <<ado, hamProt, hamCut>>
+  /\ UNCHANGED <<ado, hamProt, hamCut, nefIc>>
   /\ lastDet' = TRUE /\ lastCall' = "set_refinement" /\ Tick
 
 \* prop.propagate(rho, Nref=k); k = 1 means "argument not given"
@@ -50,7 +59,7 @@ RDMPropagate(k) ==
       want == IF k > 1 THEN k ELSE userNref IN
   /\ lastDet' = (used = want)
   /\ effNref' = IF k > 1 /\ NrefPersists THEN k ELSE effNref
-  /\ UNCHANGED <<userNref, ado, hamProt, hamCut>>
+  /\ UNCHANGED <<userNref, ado, hamProt, hamCut, nefIc>>
   /\ lastCall' = "rdm_propagate" /\ Tick
 
 \* get_RelaxationTensor: protect, (subtract cut-off), build, (recover),
@@ -58,29 +67,39 @@ RDMPropagate(k) ==
 BuildTensor(cutoff) ==
   /\ hamProt = FALSE /\ hamCut = FALSE          \* precondition = fresh values
   /\ lastDet' = TRUE
-  /\ UNCHANGED <<userNref, effNref, ado, hamProt, hamCut>>
+  /\ UNCHANGED <<userNref, effNref, ado, hamProt, hamCut, nefIc>>
   /\ lastCall' = "build_tensor" /\ Tick
 
 \* KTHierarchyPropagator.propagate
 HeomPropagate ==
   /\ lastDet' = (HeomResets \/ ado = "empty")
   /\ ado' = "used"
-  /\ UNCHANGED <<userNref, effNref, hamProt, hamCut>>
+  /\ UNCHANGED <<userNref, effNref, hamProt, hamCut, nefIc>>
   /\ lastCall' = "heom_propagate" /\ Tick
 
 \* EvolutionSuperOperator.calculate, population and state-vector propagation:
 \* no hidden state is read or written
 Stateless(name) ==
   /\ lastDet' = TRUE
-  /\ UNCHANGED <<userNref, effNref, ado, hamProt, hamCut>>
+  /\ UNCHANGED <<userNref, effNref, ado, hamProt, hamCut, nefIc>>
   /\ lastCall' = name /\ Tick
+
+\* propagation with the non-equilibrium Foerster tensor on ONE shared state
+\* object whose elements were set in place to initial condition ic
+NefPropagate(ic) ==
+  /\ lastDet' = (NefRecomputes \/ nefIc \in {0, ic})
+  /\ nefIc' = ic
+  /\ UNCHANGED <<userNref, effNref, ado, hamProt, hamCut>>
+  /\ lastCall' = "nef_propagate" /\ Tick
 
 Next ==
   \/ \E n \in 1 .. 3 : SetRefinement(n)
+  \/ \E ic \in {1, 2} : NefPropagate(ic)
   \/ \E k \in {1, 4} : RDMPropagate(k)
   \/ \E c \in BOOLEAN : BuildTensor(c)
   \/ HeomPropagate
-  \/ \E nm \in {"eso_calculate", "pop_propagate", "sv_propagate"} : Stateless(nm)
+  \/ \E nm \in {"eso_calculate", "pop_propagate", "sv_propagate",
+                 "nef_eso_calculate"} : Stateless(nm)
 
 Spec == Init /\ [][Next]_vars
 Bounded == ncalls < MaxCalls
